@@ -92,6 +92,11 @@ def g10(ctx, F):
     from .p16 import relabel
     before, nv = len(ctx.instances), len(ctx.violations)
     p02.r123(ctx, F, rules=("R2", "R3"))
+    # ... and en passant captures exist exactly when the file is on record: recorded by push (C02.R6) and by the importer (C04.K7)
+    # exactly for a double step beside an enemy pawn
+    from . import p04
+    p02.r6(ctx, F, F.fn("chess::Game::push"))
+    p04.rule_k7(ctx, F)
     relabel(ctx, before, nv, "C01.G10")
 
 
